@@ -1,5 +1,5 @@
 (** Laws of the transaction model (C13): what BEGIN ... ROLLBACK / COMMIT restores, for every
-    statement sequence; plus the bag / table lemmas shared with Store/SavepointLaws.v. *)
+    statement sequence (ROLLBACK rebuilds the user indexes since fixes/C13-rollback-rebuilds-user-indexes); plus the bag / table lemmas shared with Store/SavepointLaws.v. *)
 From Coq Require Import List ZArith Bool Arith Lia.
 From VibeSQL Require Import Base.LexOrd Value.SqlValue Value.ValueLaws Store.Txn Store.Savepoint.
 Import ListNotations.
@@ -209,8 +209,8 @@ Proof.
 Qed.
 
 (** * Frame facts about the statements *)
-Definition snap_of (d : db) : option (catalog * tables) :=
-  match d_tx d with Some x => Some (x_cat x, x_tabs x) | None => None end.
+Definition snap_of (d : db) : option (catalog * tables * list (iname * tname * nat)) :=
+  match d_tx d with Some x => Some (x_cat x, x_tabs x, x_ixs x) | None => None end.
 
 Lemma record_cat d cs : d_cat (record d cs) = d_cat d.
 Proof. unfold record; destruct (d_tx d) eqn:E; reflexivity. Qed.
@@ -231,12 +231,12 @@ Ltac destr_match :=
   end.
 
 (** every statement other than COMMIT / ROLLBACK keeps an active transaction active and its
-    (catalog, tables) snapshot untouched *)
+    (catalog, tables, index definitions) snapshot untouched *)
 Lemma step_inside_snap d o :
   inside o = true -> d_tx d <> None -> snap_of (fst (step d o)) = snap_of d.
 Proof.
   intros Hi Hx. destruct (d_tx d) as [x|] eqn:E; [clear Hx|congruence].
-  assert (HS : snap_of d = Some (x_cat x, x_tabs x)) by (unfold snap_of; now rewrite E).
+  assert (HS : snap_of d = Some (x_cat x, x_tabs x, x_ixs x)) by (unfold snap_of; now rewrite E).
   destruct o; try discriminate Hi; cbn [step].
   - unfold begin_txn. rewrite E. reflexivity.
   - unfold create_savepoint. rewrite E. cbn [fst]. rewrite HS. reflexivity.
@@ -271,22 +271,49 @@ Qed.
 Lemma run_app d a b : run d (a ++ b) = run (run d a) b.
 Proof. unfold run. apply fold_left_app. Qed.
 
-(** * C13, the part that holds for every statement sequence: tables and catalog come back *)
-Theorem rollback_restores_tables_catalog db ops :
-  d_tx db = None -> Forall (fun o => inside o = true) ops ->
-  let after := run (fst (step db OBegin)) ops in
-  let res := step after ORollback in
-  snd res = ROk 0 /\ d_cat (fst res) = d_cat db /\ d_tabs (fst res) = d_tabs db /\
-  d_tx (fst res) = None /\ d_uix (fst res) = d_uix after.
+(** * C13: what ROLLBACK yields, exactly, for every statement sequence *)
+
+(** the database with every user index dropped and created again from its table *)
+Definition refresh (d : db) : db :=
+  mkDb (d_cat d) (d_tabs d) (fst (rebuild_defs (d_tabs d) (ix_defs (d_uix d)) [])) None.
+(** every index definition can be rebuilt (its table exists, its column is in range, names differ) *)
+Definition refresh_ok (d : db) : bool := snd (rebuild_defs (d_tabs d) (ix_defs (d_uix d)) []).
+
+Lemma begin_snap db : d_tx db = None ->
+  snap_of (fst (step db OBegin)) = Some (d_cat db, d_tabs db, ix_defs (d_uix db)).
+Proof. intros Hn. cbn [step]. unfold begin_txn. rewrite Hn. reflexivity. Qed.
+
+Lemma after_snap db ops : d_tx db = None -> Forall (fun o => inside o = true) ops ->
+  snap_of (run (fst (step db OBegin)) ops) = Some (d_cat db, d_tabs db, ix_defs (d_uix db)).
 Proof.
-  intros Hn HF after res.
-  assert (Hb : snap_of (fst (step db OBegin)) = Some (d_cat db, d_tabs db)).
-  { cbn [step]. unfold begin_txn. rewrite Hn. reflexivity. }
-  assert (Ha : snap_of after = Some (d_cat db, d_tabs db)).
-  { unfold after. rewrite run_inside_snap; [assumption|assumption|].
-    apply snap_of_some_tx. rewrite Hb. discriminate. }
-  unfold res. cbn [step]. unfold rollback_txn. unfold snap_of in Ha.
-  destruct (d_tx after) as [x|]; [|discriminate]. inversion Ha; subst. cbn. auto.
+  intros Hn HF. rewrite run_inside_snap; [now apply begin_snap|assumption|].
+  apply snap_of_some_tx. rewrite (begin_snap db Hn). discriminate.
+Qed.
+
+(** BEGIN; any statements; ROLLBACK leaves exactly [refresh db]: catalog and tables of [db], no
+    transaction, and every user index [db] had, rebuilt from its table -- whatever the statements did
+    to rows, to index entries or to the set of indexes *)
+Theorem rollback_is_refresh db ops :
+  d_tx db = None -> Forall (fun o => inside o = true) ops ->
+  let res := step (run (fst (step db OBegin)) ops) ORollback in
+  fst res = refresh db /\ snd res = (if refresh_ok db then ROk 0 else RErr).
+Proof.
+  intros Hn HF res. pose proof (after_snap db ops Hn HF) as Ha.
+  unfold res. set (after := run (fst (step db OBegin)) ops) in *.
+  cbn [step]. unfold rollback_txn. unfold snap_of in Ha.
+  destruct (d_tx after) as [x|]; [|discriminate]. injection Ha as Hc Ht Hi. rewrite Hc, Ht, Hi.
+  unfold refresh, refresh_ok.
+  destruct (rebuild_defs (d_tabs db) (ix_defs (d_uix db)) []) as [U ok]. cbn. auto.
+Qed.
+
+(** in particular tables and catalog always come back *)
+Corollary rollback_restores_tables_catalog db ops :
+  d_tx db = None -> Forall (fun o => inside o = true) ops ->
+  let res := step (run (fst (step db OBegin)) ops) ORollback in
+  d_cat (fst res) = d_cat db /\ d_tabs (fst res) = d_tabs db /\ d_tx (fst res) = None.
+Proof.
+  intros Hn HF res. destruct (rollback_is_refresh db ops Hn HF) as [H _]. fold res in H. rewrite H.
+  cbn. auto.
 Qed.
 
 (** COMMIT keeps everything the last statement left (only the transaction state goes away) *)
@@ -311,514 +338,151 @@ Theorem commit_keeps_obs db ops :
 Proof.
   intros Hn HF after.
   assert (Hx : d_tx after <> None).
-  { apply snap_of_some_tx. unfold after. rewrite run_inside_snap; try assumption.
-    - cbn [step]. unfold begin_txn, snap_of. rewrite Hn. cbn. discriminate.
-    - cbn [step]. unfold begin_txn. rewrite Hn. cbn. discriminate. }
+  { apply snap_of_some_tx. unfold after. rewrite (after_snap db ops Hn HF). discriminate. }
   destruct (commit_keeps after Hx) as (_ & H1 & H2 & H3 & _).
   unfold obs_eq. repeat split; try assumption.
   - unfold storage_index_listing. now rewrite H3.
   - apply q_point_ext; assumption.
 Qed.
 
-(** * Which statements leave the user indexes (storage side) alone *)
-Definition table_indexed (U : list uindex) (t : tname) : bool := existsb (fun ix => ix_table ix =? t) U.
-
-Definition leaves_indexes (U : list uindex) (o : op) : bool :=
-  match o with
-  | OCreateIndex _ _ _ => false
-  | ODropIndex i => negb (has_uix U i)
-  | OInsert t _ | OApiInsert t _ | OApiBatch t _ | OUpdate t _ _ _ | ODelete t _ => negb (table_indexed U t)
-  | _ => true
+(** * Indexes that say the same: same definitions in the same order, same row indices under every key
+    (the association lists may list the keys in different orders) *)
+Fixpoint uix_equiv (U1 U2 : list uindex) : Prop :=
+  match U1, U2 with
+  | [], [] => True
+  | a :: U1', b :: U2' =>
+      ix_name a = ix_name b /\ ix_table a = ix_table b /\ ix_col a = ix_col b /\
+      (forall k, idx_lookup k (ix_data a) = idx_lookup k (ix_data b)) /\ uix_equiv U1' U2'
+  | _, _ => False
   end.
 
-Lemma uix_rebuild_unindexed U t rows : table_indexed U t = false -> uix_rebuild U t rows = U.
+Lemma uix_equiv_refl U : uix_equiv U U.
+Proof. induction U as [|ix U IH]; cbn; auto. Qed.
+
+Lemma uix_equiv_defs U1 U2 : uix_equiv U1 U2 -> ix_defs U1 = ix_defs U2.
 Proof.
-  unfold table_indexed, uix_rebuild. induction U as [|ix U IH]; cbn [existsb map]; [reflexivity|].
-  intros H. apply orb_false_iff in H as [H1 H2]. rewrite H1, IH by assumption. reflexivity.
+  revert U2; induction U1 as [|a U1 IH]; intros [|b U2]; cbn; try tauto.
+  intros (H1 & H2 & H3 & _ & H5). rewrite H1, H2, H3. f_equal. auto.
 Qed.
 
-Lemma uix_insert_unindexed U t r pos : table_indexed U t = false -> uix_insert U t r pos = U.
+Lemma q_point_equiv c1 c2 T U1 U2 x1 x2 t c k o :
+  uix_equiv U1 U2 -> q_point (mkDb c1 T U1 x1) t c k o = q_point (mkDb c2 T U2 x2) t c k o.
 Proof.
-  unfold table_indexed, uix_insert. induction U as [|ix U IH]; cbn [existsb map]; [reflexivity|].
-  intros H. apply orb_false_iff in H as [H1 H2]. rewrite H1, IH by assumption. reflexivity.
+  intros HU. unfold q_point. cbn [d_tabs d_uix]. destruct (get_table T t) as [tb|]; [|reflexivity].
+  revert U2 HU; induction U1 as [|a U1 IH]; intros [|b U2]; cbn [uix_equiv find_uix]; try tauto.
+  intros (H1 & H2 & H3 & H4 & H5). rewrite H2, H3.
+  destruct ((ix_table b =? t) && (ix_col b =? c)%nat); [now rewrite H4|now apply IH].
 Qed.
 
-Lemma uix_insert_many_unindexed U t rs pos : table_indexed U t = false -> uix_insert_many U t rs pos = U.
-Proof.
-  intros H. revert pos; induction rs as [|r rs IH]; intros pos; cbn [uix_insert_many]; [reflexivity|].
-  rewrite uix_insert_unindexed by assumption. apply IH.
-Qed.
+(** the user indexes of [d] are what a rebuild would produce *)
+Definition fresh (d : db) : Prop := refresh_ok d = true /\ uix_equiv (d_uix (refresh d)) (d_uix d).
 
-Lemma uix_update_unindexed U t old new pos : table_indexed U t = false -> uix_update U t old new pos = U.
-Proof.
-  unfold table_indexed, uix_update. induction U as [|ix U IH]; cbn [existsb map]; [reflexivity|].
-  intros H. apply orb_false_iff in H as [H1 H2]. rewrite H1, IH by assumption. reflexivity.
-Qed.
+Lemma fresh_of_eq d : refresh_ok d = true -> d_uix (refresh d) = d_uix d -> fresh d.
+Proof. intros H1 H2. split; [assumption|]. rewrite H2. apply uix_equiv_refl. Qed.
 
-Lemma uix_update_rows_unindexed U t c k w pos rows :
-  table_indexed U t = false -> uix_update_rows U t c k w pos rows = U.
-Proof.
-  intros H. revert pos; induction rows as [|r rows IH]; intros pos; cbn [uix_update_rows]; [reflexivity|].
-  destruct (matches w r); [rewrite uix_update_unindexed by assumption|]; apply IH.
-Qed.
-
-Lemma uix_remove_absent U i : has_uix U i = false -> uix_remove U i = U.
-Proof.
-  unfold has_uix. induction U as [|ix U IH]; cbn [existsb uix_remove]; [reflexivity|].
-  intros H. apply orb_false_iff in H as [H1 H2]. rewrite H1, IH by assumption. reflexivity.
-Qed.
-
-Lemma api_insert_row_uix d t r :
-  table_indexed (d_uix d) t = false -> d_uix (fst (api_insert_row d t r)) = d_uix d.
-Proof.
-  intros H. unfold api_insert_row. repeat (destr_match; cbn [fst]; try reflexivity).
-  rewrite record_uix. cbn [d_uix]. now apply uix_insert_unindexed.
-Qed.
-
-Lemma api_insert_batch_uix d t rs :
-  table_indexed (d_uix d) t = false -> d_uix (fst (api_insert_batch d t rs)) = d_uix d.
-Proof.
-  intros H. unfold api_insert_batch. repeat (destr_match; cbn [fst]; try reflexivity).
-  rewrite record_uix. cbn [d_uix]. now apply uix_insert_many_unindexed.
-Qed.
-
-Lemma step_leaves_uix d o : leaves_indexes (d_uix d) o = true -> d_uix (fst (step d o)) = d_uix d.
-Proof.
-  destruct o; cbn [leaves_indexes step]; intros H; try apply negb_true_iff in H.
-  - unfold begin_txn; destruct (d_tx d); reflexivity.
-  - unfold commit_txn; destruct (d_tx d); reflexivity.
-  - unfold rollback_txn; destruct (d_tx d); reflexivity.
-  - unfold create_savepoint; destruct (d_tx d); reflexivity.
-  - unfold release_savepoint; repeat (destr_match; cbn [fst]; try reflexivity).
-  - unfold rollback_to_savepoint; repeat (destr_match; cbn [fst]; try reflexivity).
-  - unfold sql_insert. repeat (destr_match; cbn [fst]; try reflexivity).
-    + now apply api_insert_row_uix.
-    + now apply api_insert_batch_uix.
-  - now apply api_insert_row_uix.
-  - now apply api_insert_batch_uix.
-  - cbn [fst]. apply record_uix.
-  - unfold sql_update. repeat (destr_match; cbn [fst d_uix]; try reflexivity).
-    now apply uix_update_rows_unindexed.
-  - unfold sql_delete. destruct (get_table (d_tabs d) t); cbn [fst d_uix]; [|reflexivity].
-    now apply uix_rebuild_unindexed.
-  - discriminate.
-  - unfold sql_drop_index. rewrite H. repeat (destr_match; cbn [fst d_uix]; try reflexivity).
-    now apply uix_remove_absent.
-Qed.
-
-Lemma run_leaves_uix ops : forall d,
-  Forall (fun o => leaves_indexes (d_uix d) o = true) ops -> d_uix (run d ops) = d_uix d.
-Proof.
-  induction ops as [|o ops IH]; intros d HF; [reflexivity|].
-  inversion HF as [|? ? Ho HF']; subst. cbn [run fold_left]. fold (run (fst (step d o)) ops).
-  pose proof (step_leaves_uix d o Ho) as Hs. rewrite IH; [assumption|].
-  rewrite Hs. assumption.
-Qed.
-
-(** * C13 under the exact side condition "no statement of the transaction touches a user index":
-    the rolled-back database IS the database before BEGIN (so every observation and every
-    continuation agrees) *)
+(** * C13: from a state whose user indexes mirror their tables, BEGIN; ANY statements; ROLLBACK
+    restores every observation -- index DDL and changes of indexed columns included *)
 Theorem rollback_restores db ops :
-  d_tx db = None -> Forall (fun o => inside o = true) ops ->
-  Forall (fun o => leaves_indexes (d_uix db) o = true) ops ->
-  fst (step (run (fst (step db OBegin)) ops) ORollback) = db.
+  d_tx db = None -> fresh db -> Forall (fun o => inside o = true) ops ->
+  let res := step (run (fst (step db OBegin)) ops) ORollback in
+  snd res = ROk 0 /\ d_cat (fst res) = d_cat db /\ d_tabs (fst res) = d_tabs db /\
+  d_tx (fst res) = None /\ uix_equiv (d_uix (fst res)) (d_uix db) /\ obs_eq (fst res) db.
 Proof.
-  intros Hn HF HL.
-  destruct (rollback_restores_tables_catalog db ops Hn HF) as (_ & H1 & H2 & H3 & H4).
-  assert (H5 : d_uix (run (fst (step db OBegin)) ops) = d_uix db).
-  { rewrite run_leaves_uix.
-    - cbn [step]. unfold begin_txn. rewrite Hn. reflexivity.
-    - cbn [step]. unfold begin_txn. rewrite Hn. cbn [fst d_uix]. assumption. }
-  rewrite H5 in H4.
-  destruct (fst (step (run (fst (step db OBegin)) ops) ORollback)) as [c T U x].
-  destruct db as [c0 T0 U0 x0]. cbn in *. congruence.
+  intros Hn [Hok Heq] HF res. destruct (rollback_is_refresh db ops Hn HF) as [H1 H2].
+  fold res in H1, H2. rewrite H1, H2, Hok.
+  split; [reflexivity|]. split; [reflexivity|]. split; [reflexivity|]. split; [reflexivity|].
+  split; [exact Heq|]. unfold obs_eq. split; [reflexivity|]. split; [reflexivity|]. split.
+  - unfold storage_index_listing. now apply uix_equiv_defs.
+  - intros t c k o. destruct db as [c0 T0 U0 x0]. unfold refresh in *. cbn [d_cat d_tabs d_uix] in *.
+    now apply q_point_equiv.
 Qed.
 
-Corollary rollback_restores_obs db ops :
-  d_tx db = None -> Forall (fun o => inside o = true) ops ->
-  Forall (fun o => leaves_indexes (d_uix db) o = true) ops ->
-  obs_eq (fst (step (run (fst (step db OBegin)) ops) ORollback)) db.
-Proof.
-  intros. rewrite rollback_restores by assumption. unfold obs_eq; auto.
-Qed.
-
-(** ... and whatever is executed afterwards cannot tell the difference *)
-Corollary rollback_then_continue db ops epilogue :
-  d_tx db = None -> Forall (fun o => inside o = true) ops ->
-  Forall (fun o => leaves_indexes (d_uix db) o = true) ops ->
-  run (fst (step (run (fst (step db OBegin)) ops) ORollback)) epilogue = run db epilogue.
-Proof. intros. now rewrite rollback_restores. Qed.
-
-(** the special case named in the property: no user index exists and none is created *)
-Definition creates_index (o : op) : bool := match o with OCreateIndex _ _ _ => true | _ => false end.
-
+(** the case named in the property: no user index before BEGIN -- the rolled-back database IS the
+    database before BEGIN, also when the transaction created indexes, and no continuation can tell *)
 Corollary rollback_restores_without_user_indexes db ops :
-  d_tx db = None -> d_uix db = [] ->
-  Forall (fun o => inside o = true) ops -> Forall (fun o => creates_index o = false) ops ->
-  fst (step (run (fst (step db OBegin)) ops) ORollback) = db.
+  d_tx db = None -> d_uix db = [] -> Forall (fun o => inside o = true) ops ->
+  let res := step (run (fst (step db OBegin)) ops) ORollback in
+  fst res = db /\ snd res = ROk 0.
 Proof.
-  intros Hn HU HF HC. apply rollback_restores; try assumption.
-  rewrite HU. apply Forall_forall. intros o Ho.
-  rewrite Forall_forall in HC. specialize (HC o Ho). destruct o; try reflexivity; discriminate.
+  intros Hn HU HF res. destruct (rollback_is_refresh db ops Hn HF) as [H1 H2]. fold res in H1, H2.
+  rewrite H1, H2. unfold refresh, refresh_ok. rewrite HU. cbn.
+  destruct db as [c T U x]. cbn in *. subst. auto.
 Qed.
 
-(** in general the observation after ROLLBACK differs from the one before BEGIN exactly by its index
-    part: storage index listing, and point queries evaluated on the RESTORED tables through whatever
-    the indexes hold after the transaction *)
-Theorem rollback_obs_iff_index_part db ops :
+Corollary rollback_then_continue_without_user_indexes db ops epilogue :
+  d_tx db = None -> d_uix db = [] -> Forall (fun o => inside o = true) ops ->
+  run (fst (step (run (fst (step db OBegin)) ops) ORollback)) epilogue = run db epilogue.
+Proof.
+  intros Hn HU HF. destruct (rollback_restores_without_user_indexes db ops Hn HU HF) as [H _].
+  now rewrite H.
+Qed.
+
+(** for every state and every statement sequence: the observation after ROLLBACK equals the one
+    before BEGIN exactly when rebuilding the indexes of the ORIGINAL state changes no observation *)
+Theorem rollback_obs_iff db ops :
   d_tx db = None -> Forall (fun o => inside o = true) ops ->
-  let after := run (fst (step db OBegin)) ops in
-  let rolled := fst (step after ORollback) in
-  obs_eq rolled db <->
-  (storage_index_listing after = storage_index_listing db /\
-   forall t c k o, q_point (mkDb (d_cat db) (d_tabs db) (d_uix after) None) t c k o = q_point db t c k o).
+  obs_eq (fst (step (run (fst (step db OBegin)) ops) ORollback)) db <-> obs_eq (refresh db) db.
 Proof.
-  intros Hn HF after rolled.
-  destruct (rollback_restores_tables_catalog db ops Hn HF) as (_ & H1 & H2 & H3 & H4).
-  fold after in H1, H2, H3, H4. fold rolled in H1, H2, H3, H4.
-  assert (HQ : forall t c k o, q_point rolled t c k o = q_point (mkDb (d_cat db) (d_tabs db) (d_uix after) None) t c k o).
-  { apply q_point_ext; cbn; assumption. }
-  unfold obs_eq. split.
-  - intros (_ & _ & HL & Hq). split.
-    + unfold storage_index_listing in *. now rewrite <- H4.
-    + intros. now rewrite <- HQ.
-  - intros (HL & Hq). repeat split; try assumption.
-    + unfold storage_index_listing in *. now rewrite H4.
-    + intros. now rewrite HQ.
+  intros Hn HF. destruct (rollback_is_refresh db ops Hn HF) as [H _]. now rewrite H.
 Qed.
 
-(** * The full statement is false of the faithful model: user-index data is outside the snapshot.
-    T0 (g, a) holds (1, 10) and has an index on [a]; BEGIN; UPDATE T0 SET a = 11 WHERE g = 1;
-    ROLLBACK; then [SELECT * FROM T0 WHERE a = 10] finds nothing although the row is back. *)
+(** * The two histories that refuted C13 before the repair are now restored *)
 Definition wit13_db : db :=
   run (mkDb (mkCat [0] []) [(0, mkTable [TInt; TInt] [])] [] None)
       [OInsert 0 [[LInt 1; LInt 10]]; OCreateIndex 0 0 1%nat].
 Definition wit13_ops : list op := [OUpdate 0 1%nat 11 (Some (0%nat, 1))].
 
-Theorem rollback_restores_refuted :
+(** UPDATE of an indexed column inside the transaction (was: C13_rollback_restores_refuted) *)
+Theorem rollback_restores_former_witness_update :
+  d_uix (run (fst (step wit13_db OBegin)) wit13_ops) <> d_uix wit13_db /\
+  fst (step (run (fst (step wit13_db OBegin)) wit13_ops) ORollback) = wit13_db.
+Proof. vm_compute. split; [discriminate|reflexivity]. Qed.
+
+(** CREATE INDEX inside the transaction (was: C13_rollback_ddl_refuted) *)
+Theorem rollback_restores_former_witness_ddl :
+  let db := mkDb (mkCat [0] []) [(0, mkTable [TInt; TInt] [])] [] None in
+  storage_index_listing (run (fst (step db OBegin)) [OCreateIndex 0 0 1%nat]) <> storage_index_listing db /\
+  fst (step (run (fst (step db OBegin)) [OCreateIndex 0 0 1%nat]) ORollback) = db.
+Proof. vm_compute. split; [discriminate|reflexivity]. Qed.
+
+(** * Without the freshness hypothesis the statement is still false: ROLLBACK TO SAVEPOINT leaves user
+    indexes stale (C14's undo does not maintain them), and a later BEGIN; ROLLBACK repairs them -- the
+    answer of a query after ROLLBACK then differs from the (wrong) answer before BEGIN.
+    T0 = {(1,10), (2,20)}, index on a; BEGIN; SAVEPOINT; INSERT (1,10); ROLLBACK TO (removes the FIRST
+    (1,10), rows shift); COMMIT: [a = 20] finds nothing.  BEGIN; ROLLBACK: it finds (2,20). *)
+Definition wit13_stale_db : db :=
+  run (mkDb (mkCat [0] []) [(0, mkTable [TInt; TInt] [])] [] None)
+      [OInsert 0 [[LInt 1; LInt 10]; [LInt 2; LInt 20]]; OCreateIndex 0 0 1%nat;
+       OBegin; OSavepoint 1; OInsert 0 [[LInt 1; LInt 10]]; ORollbackTo 1; OCommit].
+
+Theorem rollback_restores_stale_refuted :
   exists db ops t c k o,
     d_tx db = None /\ Forall (fun o => inside o = true) ops /\
     q_point (fst (step (run (fst (step db OBegin)) ops) ORollback)) t c k o <> q_point db t c k o.
 Proof.
-  exists wit13_db, wit13_ops, 0, 1%nat, 10, false.
-  split; [reflexivity|]. split; [repeat constructor|]. vm_compute. discriminate.
+  exists wit13_stale_db, [], 0, 1%nat, 20, false.
+  split; [reflexivity|]. split; [constructor|]. vm_compute. discriminate.
 Qed.
 
-(** index DDL inside a transaction is not undone either: the storage side keeps the index *)
-Theorem rollback_ddl_refuted :
-  exists db ops,
-    d_tx db = None /\ Forall (fun o => inside o = true) ops /\
-    storage_index_listing (fst (step (run (fst (step db OBegin)) ops) ORollback)) <> storage_index_listing db.
-Proof.
-  exists (mkDb (mkCat [0] []) [(0, mkTable [TInt; TInt] [])] [] None), [OCreateIndex 0 0 1%nat].
-  split; [reflexivity|]. split; [repeat constructor|]. vm_compute. discriminate.
-Qed.
-
-(** the hypotheses of the positive theorems are satisfiable by a non-trivial input *)
+(** the hypotheses of the positive theorem are satisfiable by a non-trivial input: two tables, two
+    indexes, a transaction that inserts, updates an indexed column, deletes, drops and creates indexes *)
 Example rollback_restores_example :
   let db := run (mkDb (mkCat [0; 1] []) [(0, mkTable [TInt; TInt] []); (1, mkTable [TInt; TVarchar (Some 2%nat)] [])] [] None)
-                [OInsert 0 [[LInt 1; LInt 10]]; OCreateIndex 0 0 1%nat; OInsert 1 [[LInt 1; LStr [97]]]] in
-  let ops := [OInsert 1 [[LInt 2; LStr [97; 98; 99]]]; OSavepoint 1; OUpdate 1 0%nat 5 None; ODelete 1 (Some (0%nat, 5));
-              ORollbackTo 1; OBegin] in
-  d_tx db = None /\ forallb inside ops = true /\ forallb (leaves_indexes (d_uix db)) ops = true /\
+                [OInsert 0 [[LInt 1; LInt 10]; [LInt 2; LInt 10]]; OCreateIndex 0 0 1%nat; OCreateIndex 1 1 0%nat;
+                 OInsert 1 [[LInt 1; LStr [97]]]; OUpdate 0 1%nat 12 (Some (0%nat, 1)); ODelete 0 (Some (0%nat, 7))] in
+  let ops := [OInsert 1 [[LInt 2; LStr [97; 98; 99]]]; OSavepoint 1; OUpdate 0 1%nat 5 None; ODelete 0 (Some (0%nat, 2));
+              ODropIndex 1; OCreateIndex 2 1 0%nat; ORollbackTo 1; OBegin] in
+  d_tx db = None /\ refresh_ok db = true /\ forallb inside ops = true /\
   d_tabs (run (fst (step db OBegin)) ops) <> d_tabs db /\
-  fst (step (run (fst (step db OBegin)) ops) ORollback) = db.
-Proof. vm_compute. repeat split; congruence. Qed.
-
-(** * Transactions that only add rows: the user indexes are NOT restored, yet no query can tell
-    immediately after ROLLBACK -- the left-over entries point past the end of the restored tables.
-    (A later INSERT can tell: see [rollback_insert_only_continuation_refuted].) *)
-
-Lemma ikey_eqb_eq a b : ikey_eqb a b = true <-> a = b.
+  ix_defs (d_uix (run (fst (step db OBegin)) ops)) <> ix_defs (d_uix db) /\
+  (forall k, idx_lookup k (ix_data (nth 0 (d_uix (refresh db)) (mkIx 0 0 0 []))) = idx_lookup k (ix_data (nth 0 (d_uix db) (mkIx 0 0 0 [])))) /\
+  fst (step (run (fst (step db OBegin)) ops) ORollback) = refresh db.
 Proof.
-  destruct a, b; cbn; split; intros H; try discriminate; try reflexivity.
-  - apply Z.eqb_eq in H. now subst.
-  - inversion H. apply Z.eqb_refl.
+  vm_compute. repeat split; try congruence.
+  intros [k|]; [|reflexivity].
+  destruct (Z.eq_dec k 12) as [->|H12]; [reflexivity|].
+  destruct (Z.eq_dec k 10) as [->|H10]; [reflexivity|].
+  destruct (k =? 12) eqn:E1; [apply Z.eqb_eq in E1; congruence|].
+  destruct (k =? 10) eqn:E2; [apply Z.eqb_eq in E2; congruence|]. 
+  reflexivity.
 Qed.
-
-Lemma ikey_eqb_sym a b : ikey_eqb a b = ikey_eqb b a.
-Proof. destruct a, b; cbn; try reflexivity. apply Z.eqb_sym. Qed.
-
-Lemma idx_lookup_push k k' p d :
-  idx_lookup k (idx_push k' p d) = idx_lookup k d ++ (if ikey_eqb k' k then [p] else []).
-Proof.
-  induction d as [|[k0 l] d IH]; cbn [idx_push idx_lookup].
-  - destruct (ikey_eqb k' k); reflexivity.
-  - destruct (ikey_eqb k0 k') eqn:E0; cbn [idx_lookup].
-    + apply ikey_eqb_eq in E0; subst k0. destruct (ikey_eqb k' k); [reflexivity|now rewrite app_nil_r].
-    + destruct (ikey_eqb k0 k) eqn:E1; [|exact IH].
-      apply ikey_eqb_eq in E1; subst k0. rewrite ikey_eqb_sym, E0. now rewrite app_nil_r.
-Qed.
-
-(** statements under which tables only grow and no index key of an existing row changes *)
-Definition col_indexed (U : list uindex) (t : tname) (c : nat) : bool :=
-  existsb (fun ix => (ix_table ix =? t) && (ix_col ix =? c)%nat) U.
-
-Definition grows_only (U : list uindex) (o : op) : bool :=
-  match o with
-  | OBegin | OSavepoint _ | ORelease _ | OApiRecord _ => true
-  | OInsert _ _ | OApiInsert _ _ | OApiBatch _ _ => true
-  | OUpdate t c _ _ => negb (col_indexed U t c)
-  | _ => false
-  end.
-
-(** [U] extends [U0]: same indexes in the same order, and under every key the row-index list of
-    [U0] followed by row indices that are at least [lo t] for the index's table [t] *)
-Fixpoint uix_extends (lo : tname -> nat) (U0 U : list uindex) : Prop :=
-  match U0, U with
-  | [], [] => True
-  | ix0 :: U0', ix :: U' =>
-      ix_name ix = ix_name ix0 /\ ix_table ix = ix_table ix0 /\ ix_col ix = ix_col ix0 /\
-      (forall k, exists extra, idx_lookup k (ix_data ix) = idx_lookup k (ix_data ix0) ++ extra /\
-                               Forall (fun p => (lo (ix_table ix0) <= p)%nat) extra) /\
-      uix_extends lo U0' U'
-  | _, _ => False
-  end.
-
-Lemma uix_extends_refl lo U : uix_extends lo U U.
-Proof.
-  induction U as [|ix U IH]; cbn; auto. repeat split; auto. intros k. exists []. now rewrite app_nil_r.
-Qed.
-
-Definition rows_len (T : tables) (t : tname) : nat :=
-  match get_table T t with Some tb => length (t_rows tb) | None => O end.
-
-Lemma uix_extends_insert lo U0 U t r pos :
-  (lo t <= pos)%nat -> uix_extends lo U0 U -> uix_extends lo U0 (uix_insert U t r pos).
-Proof.
-  intros Hp. revert U; induction U0 as [|ix0 U0 IH]; intros [|ix U]; cbn; try tauto.
-  intros (H1 & H2 & H3 & H4 & H5). destruct (ix_table ix =? t) eqn:E; cbn.
-  - split; [assumption|]. split; [assumption|]. split; [assumption|]. split; [|exact (IH _ H5)].
-    intros k. destruct (H4 k) as (extra & He & Hf).
-    rewrite idx_lookup_push, He, <- app_assoc. eexists; split; [reflexivity|].
-    apply Forall_app; split; [assumption|]. destruct (ikey_eqb _ k); constructor; [|constructor].
-    apply Z.eqb_eq in E. rewrite <- H2, E. assumption.
-  - split; [assumption|]. split; [assumption|]. split; [assumption|]. split; [assumption|exact (IH _ H5)].
-Qed.
-
-Lemma uix_extends_insert_many lo U0 t rs : forall U pos,
-  (lo t <= pos)%nat -> uix_extends lo U0 U -> uix_extends lo U0 (uix_insert_many U t rs pos).
-Proof.
-  induction rs as [|r rs IH]; intros U pos Hp H; cbn [uix_insert_many]; [assumption|].
-  apply IH; [lia|]. now apply uix_extends_insert.
-Qed.
-
-Lemma nth_set_nth_other c c' v r : c <> c' -> nth c' (set_nth c v r) VNull = nth c' r VNull.
-Proof.
-  revert c c'; induction r as [|x r IH]; intros [|c] [|c'] H; cbn; try reflexivity; try congruence.
-  apply IH. congruence.
-Qed.
-
-Lemma uix_update_unindexed_col U t c v r pos :
-  col_indexed U t c = false -> uix_update U t r (set_nth c v r) pos = U.
-Proof.
-  unfold col_indexed, uix_update. induction U as [|ix U IH]; cbn [existsb map]; [reflexivity|].
-  intros H. apply orb_false_iff in H as [H1 H2]. rewrite IH by assumption.
-  destruct (ix_table ix =? t) eqn:E; [|reflexivity]. cbn in H1.
-  assert (Hc : c <> ix_col ix).
-  { intros ->. rewrite Nat.eqb_refl in H1. discriminate. }
-  unfold row_key. rewrite (nth_set_nth_other c (ix_col ix) v r Hc).
-  assert (Hk : ikey_eqb (key_of_cell (nth (ix_col ix) r VNull)) (key_of_cell (nth (ix_col ix) r VNull)) = true)
-    by now apply ikey_eqb_eq.
-  now rewrite Hk.
-Qed.
-
-Lemma uix_update_rows_unindexed_col U t c k w : forall rows pos,
-  col_indexed U t c = false -> uix_update_rows U t c k w pos rows = U.
-Proof.
-  induction rows as [|r rows IH]; intros pos H; cbn [uix_update_rows]; [reflexivity|].
-  destruct (matches w r); [rewrite uix_update_unindexed_col by assumption|]; now apply IH.
-Qed.
-
-(** table lengths *)
-Lemma rows_len_set_same T t tb tb' :
-  get_table T t = Some tb -> rows_len (set_table T t tb') t = length (t_rows tb').
-Proof. intros G. unfold rows_len. now rewrite (get_set_same _ _ _ _ G). Qed.
-
-Lemma rows_len_set_other T t t' tb' : t' <> t -> rows_len (set_table T t tb') t' = rows_len T t'.
-Proof. intros H. unfold rows_len. now rewrite get_set_other. Qed.
-
-Lemma rows_len_set_ge T t tb tb' t' :
-  get_table T t = Some tb -> (length (t_rows tb) <= length (t_rows tb'))%nat ->
-  (rows_len T t' <= rows_len (set_table T t tb') t')%nat.
-Proof.
-  intros G Hl. destruct (Z.eq_dec t' t) as [->|Hne].
-  - rewrite (rows_len_set_same _ _ _ _ G). unfold rows_len. rewrite G. assumption.
-  - rewrite rows_len_set_other by assumption. lia.
-Qed.
-
-Lemma table_insert_length tb r tb' : table_insert tb r = Done tb' -> length (t_rows tb') = S (length (t_rows tb)).
-Proof.
-  unfold table_insert. destruct (normalize_row _ _); try discriminate. intros H; inversion H; subst.
-  cbn. rewrite app_length. cbn. lia.
-Qed.
-
-Lemma table_insert_many_length rs : forall tb tb' st,
-  table_insert_many tb rs = (tb', st) -> (length (t_rows tb) <= length (t_rows tb'))%nat.
-Proof.
-  induction rs as [|r rs IH]; intros tb tb' st H; cbn [table_insert_many] in H.
-  - inversion H; subst. lia.
-  - destruct (table_insert tb r) as [tb1| |] eqn:E; try (inversion H; subst; lia).
-    apply table_insert_length in E. apply IH in H. lia.
-Qed.
-
-Lemma update_rows_length cols c k w : forall rows rows' st,
-  update_rows cols c k w rows = (rows', st) -> length rows' = length rows.
-Proof.
-  induction rows as [|r rows IH]; intros rows' st H; cbn [update_rows] in H.
-  - inversion H; reflexivity.
-  - destruct (matches w r).
-    + destruct (normalize_row _ _); try (inversion H; reflexivity).
-      destruct (update_rows cols c k w rows) as [rest st'] eqn:E. inversion H; subst. cbn. f_equal. eauto.
-    + destruct (update_rows cols c k w rows) as [rest st'] eqn:E. inversion H; subst. cbn. f_equal. eauto.
-Qed.
-
-(** the invariant of a growing transaction, relative to the state at BEGIN *)
-Definition grown (T0 : tables) (U0 : list uindex) (d : db) : Prop :=
-  (forall t, (rows_len T0 t <= rows_len (d_tabs d) t)%nat) /\ uix_extends (rows_len T0) U0 (d_uix d).
-
-Lemma col_indexed_extends lo U0 U t c : uix_extends lo U0 U -> col_indexed U t c = col_indexed U0 t c.
-Proof.
-  revert U; induction U0 as [|ix0 U0 IH]; intros [|ix U]; cbn; try tauto.
-  intros (H1 & H2 & H3 & H4 & H5). unfold col_indexed in *. cbn [existsb]. rewrite H2, H3. f_equal. auto.
-Qed.
-
-Lemma api_insert_row_grown T0 U0 d t r : grown T0 U0 d -> grown T0 U0 (fst (api_insert_row d t r)).
-Proof.
-  intros [HL HU]. unfold api_insert_row.
-  destruct (get_table (d_tabs d) t) as [tb|] eqn:G; [|split; assumption].
-  destruct (table_insert tb r) as [tb'| |] eqn:E; try (split; assumption).
-  cbn [fst]. pose proof (table_insert_length _ _ _ E) as Hlen. split.
-  - intros t'. rewrite record_tabs. cbn [d_tabs]. specialize (HL t').
-    pose proof (rows_len_set_ge (d_tabs d) t tb tb' t' G). lia.
-  - rewrite record_uix. cbn [d_uix]. apply uix_extends_insert; [|assumption].
-    specialize (HL t). unfold rows_len in HL at 2. rewrite G in HL. assumption.
-Qed.
-
-Lemma api_insert_batch_grown T0 U0 d t rs : grown T0 U0 d -> grown T0 U0 (fst (api_insert_batch d t rs)).
-Proof.
-  intros [HL HU]. unfold api_insert_batch. destruct rs as [|r0 rs0]; [split; assumption|].
-  destruct (get_table (d_tabs d) t) as [tb|] eqn:G; [|split; assumption].
-  destruct (table_insert_many tb (r0 :: rs0)) as [tb' st] eqn:E.
-  pose proof (table_insert_many_length _ _ _ _ E) as Hlen.
-  assert (HL' : forall t', (rows_len T0 t' <= rows_len (set_table (d_tabs d) t tb') t')%nat).
-  { intros t'. specialize (HL t'). pose proof (rows_len_set_ge (d_tabs d) t tb tb' t' G Hlen). lia. }
-  destruct st as [u| |]; cbn [fst]; split; rewrite ?record_tabs, ?record_uix; cbn [d_tabs d_uix]; auto.
-  apply uix_extends_insert_many; [|assumption].
-  specialize (HL t). unfold rows_len in HL at 2. rewrite G in HL. assumption.
-Qed.
-
-Lemma step_grown T0 U0 d o :
-  grows_only U0 o = true -> grown T0 U0 d -> grown T0 U0 (fst (step d o)).
-Proof.
-  intros Hg H. destruct o; try discriminate Hg; cbn [step].
-  - unfold begin_txn. destruct (d_tx d); assumption.
-  - unfold create_savepoint. destruct (d_tx d); assumption.
-  - unfold release_savepoint. repeat (destr_match; cbn [fst]); assumption.
-  - unfold sql_insert. repeat (destr_match; cbn [fst]); try assumption.
-    + now apply api_insert_row_grown.
-    + now apply api_insert_batch_grown.
-  - now apply api_insert_row_grown.
-  - now apply api_insert_batch_grown.
-  - cbn [fst]. destruct H as [HL HU]. split; [now rewrite record_tabs|now rewrite record_uix].
-  - cbn [grows_only] in Hg. apply negb_true_iff in Hg. destruct H as [HL HU].
-    rewrite <- (col_indexed_extends _ _ _ t c HU) in Hg.
-    unfold sql_update. destruct (get_table (d_tabs d) t) as [tb|] eqn:G; [|split; assumption].
-    destruct (_ <=? _)%nat; [split; assumption|].
-    destruct (update_rows (t_cols tb) c k w (t_rows tb)) as [rows' st] eqn:E.
-    pose proof (update_rows_length _ _ _ _ _ _ _ E) as Hlen.
-    assert (HL' : forall t', (rows_len T0 t' <= rows_len (set_table (d_tabs d) t (mkTable (t_cols tb) rows')) t')%nat).
-    { intros t'. specialize (HL t').
-      pose proof (rows_len_set_ge (d_tabs d) t tb (mkTable (t_cols tb) rows') t' G). cbn [t_rows] in *. lia. }
-    destruct st as [u| |]; cbn [fst]; split; cbn [d_tabs d_uix]; auto.
-    now rewrite uix_update_rows_unindexed_col.
-Qed.
-
-Lemma run_grown T0 U0 ops : forall d,
-  Forall (fun o => grows_only U0 o = true) ops -> grown T0 U0 d -> grown T0 U0 (run d ops).
-Proof.
-  induction ops as [|o ops IH]; intros d HF H; [assumption|].
-  inversion HF as [|? ? Ho HF']; subst. cbn [run fold_left]. fold (run (fst (step d o)) ops).
-  apply IH; [assumption|]. now apply step_grown.
-Qed.
-
-Lemma fetch_rows_app rows a b : fetch_rows rows (a ++ b) = fetch_rows rows a ++ fetch_rows rows b.
-Proof.
-  induction a as [|i a IH]; cbn [fetch_rows app]; [reflexivity|].
-  destruct (nth_error rows i); cbn; now rewrite IH.
-Qed.
-
-Lemma fetch_rows_beyond rows extra : Forall (fun p => (length rows <= p)%nat) extra -> fetch_rows rows extra = [].
-Proof.
-  induction extra as [|p extra IH]; intros H; [reflexivity|]. inversion H; subst. cbn [fetch_rows].
-  destruct (nth_error rows p) eqn:E; [|auto].
-  assert (p < length rows)%nat by (apply nth_error_Some; congruence). lia.
-Qed.
-
-Lemma q_point_extends T0 c0 U0 U x t c k o :
-  uix_extends (rows_len T0) U0 U ->
-  q_point (mkDb c0 T0 U x) t c k o = q_point (mkDb c0 T0 U0 x) t c k o.
-Proof.
-  intros HU. unfold q_point. cbn [d_tabs d_uix]. destruct (get_table T0 t) as [tb|] eqn:G; [|reflexivity].
-  revert U HU. induction U0 as [|ix0 U0 IH]; intros [|ix U]; cbn [uix_extends find_uix]; try tauto.
-  intros (H1 & H2 & H3 & H4 & H5). rewrite H2, H3.
-  destruct ((ix_table ix0 =? t) && (ix_col ix0 =? c)%nat) eqn:E; [|now apply IH].
-  destruct (H4 (Some k)) as (extra & -> & Hf). rewrite fetch_rows_app, filter_app.
-  rewrite (fetch_rows_beyond (t_rows tb) extra); [now rewrite app_nil_r|].
-  apply andb_true_iff in E as [E _]. apply Z.eqb_eq in E. rewrite E in Hf.
-  unfold rows_len in Hf. now rewrite G in Hf.
-Qed.
-
-Lemma listing_extends lo U0 U : uix_extends lo U0 U -> storage_index_listing (mkDb (mkCat [] []) [] U None) = storage_index_listing (mkDb (mkCat [] []) [] U0 None).
-Proof.
-  unfold storage_index_listing. cbn [d_uix]. revert U; induction U0 as [|ix0 U0 IH]; intros [|ix U]; cbn; try tauto.
-  intros (H1 & H2 & H3 & H4 & H5). rewrite H1, H2, H3. f_equal. auto.
-Qed.
-
-(** C13 for growing transactions (INSERTs through SQL or the storage API, UPDATEs of un-indexed
-    columns, SAVEPOINT / RELEASE), with any user indexes in any state: every observation right after
-    ROLLBACK equals the one before BEGIN *)
-Theorem rollback_restores_obs_growing db ops :
-  d_tx db = None -> Forall (fun o => grows_only (d_uix db) o = true) ops ->
-  obs_eq (fst (step (run (fst (step db OBegin)) ops) ORollback)) db.
-Proof.
-  intros Hn HF.
-  assert (HI : Forall (fun o => inside o = true) ops).
-  { eapply Forall_impl; [|exact HF]. intros o Ho. destruct o; try reflexivity; discriminate. }
-  destruct (rollback_restores_tables_catalog db ops Hn HI) as (_ & H1 & H2 & H3 & H4).
-  set (after := run (fst (step db OBegin)) ops) in *.
-  assert (HG : grown (d_tabs db) (d_uix db) after).
-  { unfold after. apply run_grown; [assumption|].
-    cbn [step]. unfold begin_txn. rewrite Hn. cbn [fst]. split; cbn; [lia|apply uix_extends_refl]. }
-  destruct HG as [_ HU].
-  set (rolled := fst (step after ORollback)) in *.
-  unfold obs_eq. split; [assumption|]. split; [assumption|]. split.
-  - unfold storage_index_listing. rewrite H4.
-    pose proof (listing_extends _ _ _ HU) as HL. unfold storage_index_listing in HL. cbn [d_uix] in HL. exact HL.
-  - intros t c k o.
-    destruct rolled as [rc rT rU rx] eqn:ER. cbn [d_cat d_tabs d_uix d_tx] in *. subst rc rT rU rx.
-    destruct db as [c0 T0 U0 x0]. cbn [d_cat d_tabs d_uix d_tx] in *. subst x0.
-    now apply q_point_extends.
-Qed.
-
-(** ... but the indexes are not restored, and one more committed INSERT shows it: the stale entry and
-    the new entry point at the same position and the row is answered twice *)
-Theorem rollback_insert_only_continuation_refuted :
-  exists db ops epilogue t c k o,
-    d_tx db = None /\ Forall (fun o => grows_only (d_uix db) o = true) ops /\
-    q_point (run (fst (step (run (fst (step db OBegin)) ops) ORollback)) epilogue) t c k o
-    <> q_point (run db epilogue) t c k o.
-Proof.
-  exists (run (mkDb (mkCat [1] []) [(1, mkTable [TInt; TInt] [])] [] None) [OCreateIndex 2 1 1%nat]),
-         [OInsert 1 [[LInt 1; LInt 5]]], [OInsert 1 [[LInt 2; LInt 5]]], 1, 1%nat, 5, false.
-  split; [reflexivity|]. split; [repeat constructor|]. vm_compute. discriminate.
-Qed.
-
-Example rollback_restores_obs_growing_example :
-  let db := run (mkDb (mkCat [0] []) [(0, mkTable [TInt; TInt; TInt] [])] [] None)
-                [OInsert 0 [[LInt 1; LInt 5; LInt 7]]; OCreateIndex 0 0 1%nat] in
-  let ops := [OInsert 0 [[LInt 2; LInt 5; LInt 8]; [LInt 3; LInt 6; LNull]]; OSavepoint 1;
-              OUpdate 0 2%nat 9 (Some (1%nat, 5)); OApiInsert 0 [VInteger 4; VNull; VNull]] in
-  d_tx db = None /\ forallb (grows_only (d_uix db)) ops = true /\
-  d_uix (fst (step (run (fst (step db OBegin)) ops) ORollback)) <> d_uix db.
-Proof. vm_compute. repeat split; congruence. Qed.
